@@ -451,6 +451,12 @@ func c02(c *Ctx) {
 			c.R.Add(Finding{Kind: "diff", What: "download attempt: model and implementation disagree", Case: mcase[i], Impl: mimpl[i], Model: model[i] + "   <= " + clip(mlines[i], 300), Broken: "corr.C02.download"})
 		}
 	}
+	if c.Replay == "" {
+		os.Chdir(oldwd)
+		c02Custom(c, r)
+		c02SSH(c, r)
+		c02Concurrent(c, r)
+	}
 }
 
 func shaOpt(b []byte, ok bool) string {
